@@ -29,12 +29,25 @@ def innermost_frame(exc) -> str:
 
 def run_recipe(recipe, parse=True, workdir=None) -> Outcome:
     out = Outcome()
+    first_layout = recipe.get("relayout")
     try:
-        out.built = R.build(recipe, workdir)
+        if first_layout is not None:
+            # history: the document is first rendered with another paper size / margins, then given the recipe's
+            # rtf_page (a new RTFPage object) and rendered again; the oracles look at the second rendering
+            first = dict(recipe, page=first_layout)
+            del first["relayout"]
+            out.built = R.build(first, workdir)
+            out.built.recipe = recipe
+        else:
+            out.built = R.build(recipe, workdir)
     except Exception as e:  # generator produced something the library refuses
         out.build_error = f"{type(e).__name__}: {str(e)[:300]} @ {innermost_frame(e)}"
         return out
     try:
+        if first_layout is not None:
+            import rtflite as rtf
+            out.built.doc.rtf_encode()
+            out.built.doc.rtf_page = rtf.RTFPage(**R._kw(recipe.get("page") or {}))
         out.rtf = out.built.doc.rtf_encode()
     except Exception as e:
         out.encode_error = (type(e).__name__, innermost_frame(e), str(e)[:200])
